@@ -211,6 +211,14 @@ const kafkaPkg = "github.com/segmentio/kafka-go"
 // goroutines of the fakes and of the harness itself (the call goroutines, which are
 // created by package main) do not count.
 func kafkaGoroutines() (int, string) {
+	n, where, _ := kafkaGoroutinesP()
+	return n, where
+}
+
+// kafkaGoroutinesP also tells whether one of these goroutines is parked in the promise of a
+// Transport round trip: its stack contains async.resolve / async.reject, or it is
+// (*conn).run blocked in a channel send.
+func kafkaGoroutinesP() (int, string, bool) {
 	buf := make([]byte, 1<<20)
 	for {
 		n := runtime.Stack(buf, true)
@@ -221,6 +229,7 @@ func kafkaGoroutines() (int, string) {
 		buf = make([]byte, 2*len(buf))
 	}
 	n := 0
+	parked := false
 	where := map[string]int{}
 	for _, blk := range bytes.Split(buf, []byte("\n\n")) {
 		lines := strings.Split(string(blk), "\n")
@@ -234,6 +243,11 @@ func kafkaGoroutines() (int, string) {
 			continue
 		}
 		n++
+		body := string(blk)
+		if strings.Contains(body, "async.resolve") || strings.Contains(body, "async.reject") ||
+			(strings.Contains(lines[0], "[chan send") && strings.Contains(body, "(*conn).run")) {
+			parked = true
+		}
 		top := ""
 		for _, l := range lines[1:] {
 			if strings.HasPrefix(l, kafkaPkg) {
@@ -251,7 +265,7 @@ func kafkaGoroutines() (int, string) {
 		keys = append(keys, k)
 	}
 	sort.Strings(keys)
-	return n, strings.Join(keys, "/")
+	return n, strings.Join(keys, "/"), parked
 }
 
 // frameName shortens "github.com/segmentio/kafka-go.(*Reader).run.func1(0x…)" or
